@@ -45,6 +45,39 @@ def impl(case: Case) -> str:
         except Exception:
             return f"{hx(t)}|ERR"
         return f"{hx(t)}|{fmt_period(q)}|{hx(str(q))}"
+    if op == "disk":
+        # the text form as a storage file name: OnDiskStorage.put writes <str(period)>.npy, a second
+        # store on the same directory restores its keys by parsing the file names back
+        import os
+        import shutil
+        import tempfile
+        import numpy
+        from openfisca_core.data_storage import OnDiskStorage
+        p = parse_period_token(f[2])
+        d = tempfile.mkdtemp(prefix="ofv_c05_")
+        try:
+            a = OnDiskStorage(d, preserve_storage_dir=True)
+            val = numpy.asarray([1.5, 2.5])
+            a.put(val, p)
+            names = sorted(os.listdir(d))
+            if len(names) != 1 or not names[0].endswith(".npy"):
+                return f"FILES:{names}"
+            t = names[0][:-4]
+            b = OnDiskStorage(d, preserve_storage_dir=True)
+            try:
+                b.restore()
+            except Exception:
+                return f"{hx(t)}|ERR"
+            keys = list(b.get_known_periods())
+            if len(keys) != 1:
+                return f"{hx(t)}|KEYS:{len(keys)}"
+            q = keys[0]
+            got = b.get(q)
+            if got is None or not numpy.array_equal(got, val) or a.get(p) is None or not numpy.array_equal(a.get(p), val):
+                return f"{hx(t)}|VALUE-LOST"
+            return f"{hx(t)}|{fmt_period(q)}|{hx(str(q))}"
+        finally:
+            shutil.rmtree(d, ignore_errors=True)
     if op == "pair":
         return f"{hx(str(parse_period_token(f[2])))}|{hx(str(parse_period_token(f[3])))}"
     if op == "irt":
@@ -70,9 +103,11 @@ FINER_RANK = {"day": 0, "weekday": 0, "week": 1, "month": 2, "year": 3}
 def oracle(case: Case, out: str):
     f = case.line.split()
     op = f[1]
-    if op == "rt" and case.claimed:
+    if op in ("rt", "disk") and case.claimed and "eternity" not in case.tags:
         u, s, n = _pt(f[2])
         parts = out.split("|")
+        if out.startswith("FILES:") or parts[1].startswith(("KEYS:", "VALUE-LOST")):
+            return ("disk-store-lost", f"storing a value for {f[2]} on disk and restoring the directory: {out}")
         text = unhx(parts[0])
         if parts[1] == "ERR":
             return ("roundtrip-reject", f"str gives {text!r}, which is refused when parsed back")
@@ -202,12 +237,14 @@ def _size_claimed(s):
 
 def generate(rng: random.Random, tier: str):
     out = []
-    n_per = 1500 if tier == "quick" else 40000
+    n_per = 5000 if tier == "quick" else 60000
     n_str = 500 if tier == "quick" else 15000
     for _ in range(n_per):
         u, s, n = _aligned_period(rng)
         p = _tok(u, s, n)
         out.append(Case(line=f"txt rt {p}", tags=("rt", u)))
+        if rng.random() < 0.4:
+            out.append(Case(line=f"txt disk {p}", tags=("disk", u)))
         out.append(Case(line=f"txt irt {fmt_date(s)}", tags=("irt",)))
         # a neighbour of the same unit that differs in start or size
         if rng.random() < 0.5:
@@ -283,6 +320,11 @@ def corpus():
     for p in ["month/2015,1,1/12", "year/2015,1,1/1", "year/2015,3,1/1", "week/2015,12,28/1", "week/2014,12,29/2", "weekday/2021,1,3/8",
               "week/2020,12,28/1", "day/2000,2,29/1", "year/1000,1,1/9", "month/9990,12,1/1"]:
         out.append(Case(line=f"txt rt {p}", tags=("rt", "corpus")))
+        out.append(Case(line=f"txt disk {p}", tags=("disk", "corpus")))
+    # the ETERNITY period prints as ETERNITY and parses back (outside the statement's aligned dated periods:
+    # binding for the correspondence, the oracle is silent)
+    out.append(Case(line="txt rt eternity/-1,-1,-1/-1", tags=("rt", "corpus", "eternity")))
+    out.append(Case(line="txt disk eternity/-1,-1,-1/-1", tags=("disk", "corpus", "eternity")))
     return out
 
 
